@@ -191,15 +191,21 @@ def _classify(rules, transforms, tname):
     return obs, mutated
 
 
-def _load(path):
+def _load(path, cli_order=True):
+    """One load as the commands perform it: cmd_run / explain / discover / diag ask for the transforms FIRST and for the rules
+    second; library callers may do it the other way round (cli_order=False)."""
     from tally.merchant_utils import get_all_rules, get_transforms
     mode = 'first_match'
     if path and os.path.exists(path):
         with open(path) as f:
             if f.readline().startswith('# mode: most_specific'):
                 mode = 'most_specific'
-    rules = get_all_rules(path, match_mode=mode)
-    transforms = get_transforms(path, match_mode=mode) if path else []
+    if cli_order:
+        transforms = get_transforms(path, match_mode=mode) if path else []
+        rules = get_all_rules(path, match_mode=mode)
+    else:
+        rules = get_all_rules(path, match_mode=mode)
+        transforms = get_transforms(path, match_mode=mode) if path else []
     return rules, transforms
 
 
@@ -265,7 +271,7 @@ def _run_ops(item, ref):
         for p, c in disk0.items():
             paths[p] = _write(d, p, c)
         rules, transforms = [], []
-        for op in ops:
+        for opi, op in enumerate(ops):
             o = op['op']
             ev = dict(op)
             try:
@@ -275,7 +281,7 @@ def _run_ops(item, ref):
                     if op['p'] == 'none':
                         rules, transforms = _load(None)
                     else:
-                        rules, transforms = _load(paths[op['p']])
+                        rules, transforms = _load(paths[op['p']], cli_order=opi % 3 != 2)
                 elif o == 'classify':
                     ev['obs'], ev['mutated'] = _classify(rules, transforms, op['t'])
                 elif o == 'match':
@@ -425,6 +431,18 @@ def run(ck):
     for i in range(n_hist):
         disk0, ops = _random_behaviour(rnd, rnd.randint(3, 25))
         hists.append(('h%d' % i, disk0, ops))
+    # the scenario C07 is about, for every ordered pair of contents: load, classify, EDIT THE SAME FILE, load again, classify
+    # (op positions chosen so that both load orders - transforms first / rules first - occur for the second load)
+    k = 0
+    for x in ROK + ['RBAD']:
+        for y in ROK:
+            if x == y:
+                continue
+            for pad in (0, 1):
+                ops = [{'op': 'load', 'p': 'a.rules'}, {'op': 'classify', 't': 't1'}] + [{'op': 'eval', 'e': 'e1', 't': 't2'}] * pad + \
+                      [{'op': 'write', 'p': 'a.rules', 'c': y}, {'op': 'load', 'p': 'a.rules'}, {'op': 'classify', 't': 't1'}, {'op': 'classify', 't': 't2'}]
+                hists.append(('edit%d' % k, {'a.rules': x, 'b.rules': 'RMISSING', 'c.csv': 'KMISSING'}, ops))
+                k += 1
     results = par.fresh_map(_run_ops, hists, extra=(None,))
     # value table: every distinct observation gets an integer id so TLC compares ids
     ids = {}
